@@ -1142,3 +1142,7 @@ v("d135-ffill-accepted-unordered-c27", "C27", ER2, "    \"bfill\",\n    \"ffill\
 v("d136-pandas-and-by-truthiness", "C05", PB, "            \"and\": lambda *args: self._three_valued(args, is_and=True),", "            \"and\": numpy.logical_and,")
 
 v("d137-sqlite-builtin-round", "C05", SQ, "            \"round\": functools.partial(_wrap_numpy_fn, numpy.round),\n", "")
+
+v("d138-project-accepts-row-wise-methods", "C26", VR, "                    not in data_algebra.expr_rep.fn_names_that_contradict_ordered_windowed_situation\n                ):\n                    # an operator or a row-wise method (-x,", "                    in set()\n                ):\n                    # an operator or a row-wise method (-x,")
+
+v("d138-window-accepts-row-wise-methods", "C26", VR, "                    not in data_algebra.expr_rep.fn_names_of_window_functions\n                ):", "                    in set()\n                ):")
